@@ -1,5 +1,5 @@
 (* C07 - liveness: with the three hypotheses of System.v on and message ids that do not wrap
-   within the run, once the system is at rest (nothing in flight, no work at the server, empty
+   of the server's session within the run, once the system is at rest (nothing in flight, no work at the server, empty
    send queue) every request token was answered - handler or NACK - unless its response was
    irrecoverably lost: a Non-confirmable response dropped by the network, or a Confirmable
    response the server gave up on (the property's fairness hypothesis: not all
@@ -82,16 +82,14 @@ Definition ex_alive (y : ex_sys) (lost : list Z) (kc : Z) : Prop :=
 Definition ex_unanswered (y : ex_sys) (m : ex_mon) (lost : list Z) (sc mc kc : Z) : Prop :=
   ~ In kc (ex_m_stop m) /\
   Forall (fun d => ex_is_req d = true) (ex_y_c2s y) /\
-  ex_c_lack (ex_y_c y) < mc /\
+  ex_c_lack (ex_y_c y) <> mc /\
   (forall a, In a (ex_conmids y) -> ex_c_lcon (ex_y_c y) < a) /\
   (sc = 0 -> ex_c_q (ex_y_c y) <> None) /\
   (~ In (mc, kc) (ex_s_seen (ex_y_s y)) -> ex_c_q (ex_y_c y) <> None) /\
   (sc <> 0 -> In (mc, kc) (ex_s_seen (ex_y_s y)) -> ex_alive y lost kc).
 
 Record ex_live (y : ex_sys) (m : ex_mon) (lost : list Z) (sc n : Z) : Prop := {
-  lv_cmid : 0 <= ex_c_mid (ex_y_c y) /\ ex_c_mid (ex_y_c y) + n < 65536;
   lv_smid : 0 <= ex_s_mid (ex_y_s y) /\ ex_s_mid (ex_y_s y) + n < 65536;
-  lv_lack_le : ex_c_lack (ex_y_c y) <= ex_c_mid (ex_y_c y);
   lv_lcon_le : ex_c_lcon (ex_y_c y) <= ex_s_mid (ex_y_s y);
   lv_mids_le : forall a, In a (ex_conmids y) -> a <= ex_s_mid (ex_y_s y);
   lv_head : forall mc kc rest, ex_m_reqs m = (mc, kc) :: rest -> mc = ex_c_mid (ex_y_c y);
@@ -105,10 +103,10 @@ Record ex_live (y : ex_sys) (m : ex_mon) (lost : list Z) (sc n : Z) : Prop := {
 }.
 
 Lemma ex_live_init : forall cmid0 smid0 n,
-  0 <= cmid0 -> 0 <= smid0 -> cmid0 + n < 65536 -> smid0 + n < 65536 ->
+  0 <= smid0 -> smid0 + n < 65536 ->
   ex_live (ex_sys_init cmid0 smid0) ex_mon_init [] 0 n.
 Proof.
-  intros cmid0 smid0 n H1 H2 H3 H4.
+  intros cmid0 smid0 n H2 H4.
   constructor; cbn; try lia; try (intros; contradiction); intros; discriminate.
 Qed.
 
@@ -131,9 +129,7 @@ Lemma ex_live_frame : forall y m lost lost' sc n s' c2s' s2c',
 Proof.
   intros y m lost lost' sc n s' c2s' s2c' L Hn y' Hmid Hsn Hle Hacke Hun.
   constructor; cbn [y' ex_y_c ex_y_s ex_y_c2s ex_y_s2c ex_y_app].
-  - pose proof (lv_cmid _ _ _ _ _ L). lia.
   - pose proof (lv_smid _ _ _ _ _ L). lia.
-  - apply L.
   - pose proof (lv_lcon_le _ _ _ _ _ L). lia.
   - exact Hle.
   - apply L.
@@ -637,7 +633,7 @@ Lemma ex_live_client_gen : forall y m m' lost sc n c1 outs s2c' i,
   ex_live y m lost sc (n + 1) -> 0 <= n ->
   ex_step_ok true m (i, outs) m' -> ex_m_reqs m' = ex_m_reqs m ->
   ex_c_mid c1 = ex_c_mid (ex_y_c y) ->
-  ex_c_lack c1 <= ex_c_mid (ex_y_c y) -> ex_c_lcon c1 <= ex_s_mid (ex_y_s y) ->
+  ex_c_lcon c1 <= ex_s_mid (ex_y_s y) ->
   (forall d, In d s2c' -> In d (ex_y_s2c y)) ->
   (forall mc kc rest, ex_m_reqs m = (mc, kc) :: rest -> ex_y_app y = Some kc ->
      existsb (ex_out_ends kc) outs = false ->
@@ -648,14 +644,12 @@ Lemma ex_live_client_gen : forall y m m' lost sc n c1 outs s2c' i,
   ex_live (Build_ex_sys c1 (ex_y_s y) (ex_y_c2s y ++ ex_txs outs) s2c' (ex_app_after (ex_y_app y) outs))
           m' lost sc n.
 Proof.
-  intros y m m' lost sc n c1 outs s2c' i L Hn Hs Er Hmid Hla Hlc Sub Hun.
+  intros y m m' lost sc n c1 outs s2c' i L Hn Hs Er Hmid Hlc Sub Hun.
   assert (Toks : ex_toks m' = ex_toks m) by (unfold ex_toks; rewrite Er; reflexivity).
   assert (StopMono : forall k, In k (ex_m_stop m) -> In k (ex_m_stop m')).
   { intros k. eapply ex_step_stop_mono. exact Hs. }
   constructor; cbn [ex_y_c ex_y_s ex_y_c2s ex_y_s2c ex_y_app].
-  - pose proof (lv_cmid _ _ _ _ _ L). lia.
   - pose proof (lv_smid _ _ _ _ _ L). lia.
-  - lia.
   - exact Hlc.
   - intros a Ha. apply (lv_mids_le _ _ _ _ _ L). eapply ex_conmids_client_sub; [exact Sub | exact Ha].
   - intros mc kc rest E. rewrite Er in E. rewrite Hmid. eapply (lv_head _ _ _ _ _ L). exact E.
@@ -701,7 +695,6 @@ Lemma ex_live_weaken : forall y m lost lost' sc n,
   ex_live y m lost' sc n.
 Proof.
   intros y m lost lost' sc n L Hn Hl. constructor; try apply L.
-  - pose proof (lv_cmid _ _ _ _ _ L). lia.
   - pose proof (lv_smid _ _ _ _ _ L). lia.
   - intros mc kc rest E A. destruct (lv_un _ _ _ _ _ L mc kc rest E A) as [U1 [U2 [U3 [U4 [U5 [U6 U7]]]]]].
     unfold ex_unanswered. repeat (split; [assumption |]).
@@ -759,7 +752,6 @@ Proof.
       - inversion Erm; subst. inversion Ecs; subst. repeat split; auto. }
     destruct R as [R1 [R2 [R3 [R4 R5]]]]. subst outs.
     eapply ex_live_client_gen; eauto.
-    + rewrite R2. apply L.
     + rewrite R3. apply L.
     + intros mc kc rest E0 A _. repeat split; auto. cbn. constructor.
       apply (ex_has_nonr_remove _ _ _ E). intros a k. discriminate.
@@ -779,15 +771,13 @@ Proof.
     + (* filtered: cannot happen while the exchange is unanswered *)
       apply Z.eqb_eq in Ef. inversion Ecs; subst c1 outs.
       eapply ex_live_client_gen; eauto.
-      * rewrite R2. apply L.
       * rewrite R3. apply L.
       * intros mc0 kc0 rest0 E1 A _. rewrite E0 in E1; injection E1 as <- <- <-.
-        destruct (lv_un _ _ _ _ _ L mc kc rest E0 A) as [_ [_ [U3 _]]]. rewrite E0 in *. lia.
+        destruct (lv_un _ _ _ _ _ L mc kc rest E0 A) as [_ [_ [U3 _]]]. exfalso. apply U3. congruence.
     + unfold ex_deliver in Ecs.
       replace (negb ok && negb (2 =? 2)) with false in Ecs by (destruct ok; reflexivity).
       replace (2 =? 0) with false in Ecs by reflexivity. inversion Ecs; subst c1 outs.
       eapply ex_live_client_gen; eauto; cbn [ex_c_mid ex_c_lack ex_c_lcon].
-      * lia.
       * rewrite R3. apply L.
       * intros mc0 kc0 rest0 E1 A Hf. rewrite E0 in E1; injection E1 as <- <- <-.
         cbn in Hf. rewrite Z.eqb_refl in Hf. discriminate Hf.
@@ -809,7 +799,6 @@ Proof.
     destruct (mid =? ex_c_lcon (ex_cancel_tok (ex_y_c y) kc)) eqn:Ef.
     + apply Z.eqb_eq in Ef. inversion Ecs; subst c1 outs.
       eapply ex_live_client_gen; eauto.
-      * rewrite R2. apply L.
       * rewrite R3. apply L.
       * intros mc0 kc0 rest0 E1 A _. rewrite E0 in E1; injection E1 as <- <- <-.
         destruct (lv_un _ _ _ _ _ L mc kc rest E0 A) as [_ [_ [_ [U4 _]]]].
@@ -819,8 +808,7 @@ Proof.
       { intros st a. cbn. rewrite Z.eqb_refl. reflexivity. }
       destruct ok; cbn in Ecs; inversion Ecs; subst c1 outs;
         (eapply ex_live_client_gen; eauto; cbn [ex_c_mid ex_c_lack ex_c_lcon];
-         [ rewrite R2; apply L
-         | apply (lv_mids_le _ _ _ _ _ L); exact Hmid
+         [ apply (lv_mids_le _ _ _ _ _ L); exact Hmid
          | intros mc0 kc0 rest0 E1 A Hf; rewrite E0 in E1; injection E1 as <- <- <-; rewrite Ends in Hf; discriminate Hf ]).
   - (* Non-confirmable response *)
     destruct Hok as [Hok1 Hok2].
@@ -840,8 +828,7 @@ Proof.
     { intros st l. cbn. rewrite Z.eqb_refl. reflexivity. }
     destruct ok; cbn in Ecs; inversion Ecs; subst c1 outs;
       (eapply ex_live_client_gen; eauto; cbn [ex_c_mid ex_c_lack ex_c_lcon];
-       [ rewrite R2; apply L
-       | rewrite R3; apply L
+       [ rewrite R3; apply L
        | intros mc0 kc0 rest0 E1 A Hf; rewrite E0 in E1; injection E1 as <- <- <-; rewrite Ends in Hf; discriminate Hf ]).
 Qed.
 
@@ -865,13 +852,11 @@ Proof.
     + (* retransmission *)
       eapply ex_live_client_gen; eauto; cbn [ex_set_q ex_c_mid ex_c_lack ex_c_lcon ex_c_q].
       * apply L.
-      * apply L.
       * intros mc kc rest E0 A _. repeat split; auto.
         -- unfold ex_req_of. cbn. constructor; [reflexivity | constructor].
         -- intros H. discriminate H.
     + (* give-up *)
       eapply ex_live_client_gen; eauto; cbn [ex_set_q ex_c_mid ex_c_lack ex_c_lcon ex_c_q].
-      * apply L.
       * apply L.
       * intros mc kc rest E0 A Hf. exfalso.
         destruct (ex_ginv_guard _ _ _ _ _ _ G E0) as [GC _].
@@ -879,7 +864,6 @@ Proof.
         cbn in Hf. rewrite Hk, Z.eqb_refl in Hf. discriminate Hf.
   - inversion Ecs; subst c1 outs.
     eapply ex_live_client_gen; eauto.
-    + apply L.
     + apply L.
     + intros mc kc rest E0 A _. repeat split; auto. constructor.
 Qed.
@@ -907,27 +891,20 @@ Proof.
   - cbv zeta in Ecs. unfold ex_req_of in Ecs. cbn [ex_q_mid ex_q_tok ex_q_sty] in Ecs.
     inversion Ecs; subst c1 outs. clear Ecs.
     destruct (ex_quiet_inv _ Hq) as [Q1 [Q2 [Q3 Q4]]].
-    pose proof (lv_cmid _ _ _ _ _ L) as [Hc0 Hc1].
-    assert (Hmid : (ex_c_mid (ex_y_c y) + 1) mod 65536 = ex_c_mid (ex_y_c y) + 1).
-    { apply Z.mod_small. lia. }
-    rewrite Hmid in *.
-    set (mid := ex_c_mid (ex_y_c y) + 1) in *. set (tok := ex_c_tok (ex_y_c y) + 1) in *.
+    assert (Hmid0 : 0 <= (ex_c_mid (ex_y_c y) + 1) mod 65536) by (apply Z.mod_pos_bound; lia).
+    set (mid := (ex_c_mid (ex_y_c y) + 1) mod 65536) in *. set (tok := ex_c_tok (ex_y_c y) + 1) in *.
     inversion Hs; subst m'.
     assert (Hfresh : ~ In tok (ex_toks m)).
     { intros Hin. apply ex_toks_In in Hin. destruct Hin as [mm Hin].
       apply (cm_tok _ _ C) in Hin. subst tok. lia. }
-    assert (CM0 : forall a app0, In a (ex_conmids (Build_ex_sys
-                     (Build_ex_cli (Some (Build_ex_qent mid tok sty 0)) (ex_c_lcon (ex_y_c y))
-                                   (ex_c_lack (ex_y_c y)) (ex_c_lres (ex_y_c y)) mid tok)
+    assert (CM0 : forall a c0 app0, In a (ex_conmids (Build_ex_sys c0
                      (ex_y_s y) (ex_y_c2s y ++ [ExReq mid tok sty]) (ex_y_s2c y) app0)) -> False).
-    { intros a app0 Ha. unfold ex_conmids in Ha. cbn [ex_y_s ex_y_s2c] in Ha.
+    { intros a c0 app0 Ha. unfold ex_conmids in Ha. cbn [ex_y_s ex_y_s2c] in Ha.
       rewrite Q2, Q3, Q4 in Ha. destruct Ha. }
     cbn [ex_sent_tok ex_txs ex_sc_of_obs ex_sc_after].
     constructor; cbn [ex_y_c ex_y_s ex_y_c2s ex_y_s2c ex_y_app ex_c_mid ex_c_lack ex_c_lcon ex_c_q
                       ex_m_reqs ex_m_stop].
-    + lia.
     + pose proof (lv_smid _ _ _ _ _ L). lia.
-    + pose proof (lv_lack_le _ _ _ _ _ L). lia.
     + apply L.
     + intros a Ha. exfalso. eapply CM0. exact Ha.
     + intros mc kc rest E. inversion E; subst. reflexivity.
@@ -938,7 +915,8 @@ Proof.
       unfold ex_unanswered. cbn [ex_y_c ex_y_s ex_y_c2s ex_y_s2c ex_c_lack ex_c_lcon ex_c_q ex_m_stop].
       split; [intros Hk; apply Hfresh; apply (cm_stop _ _ C); exact Hk |].
       split; [rewrite Q1; cbn; constructor; [reflexivity | constructor] |].
-      split; [pose proof (lv_lack_le _ _ _ _ _ L); lia |].
+      split.
+      { destruct (mid =? ex_c_lack (ex_y_c y)) eqn:El; [lia |]. apply Z.eqb_neq in El. congruence. }
       split; [intros a Ha; exfalso; eapply CM0; exact Ha |].
       split; [intros _ Hx; discriminate Hx |].
       split; [intros _ Hx; discriminate Hx |].
@@ -1038,8 +1016,7 @@ Qed.
 
 (* Liveness, for every schedule of the guarded system *)
 Theorem ex_system_live : forall maxr cmid0 smid0 acts,
-  0 <= cmid0 -> 0 <= smid0 ->
-  cmid0 + Z.of_nat (length acts) < 65536 -> smid0 + Z.of_nat (length acts) < 65536 ->
+  0 <= smid0 -> smid0 + Z.of_nat (length acts) < 65536 ->
   let cf := ex_cfg_guarded maxr in
   let y0 := ex_sys_init cmid0 smid0 in
   let r := ex_sys_run cf y0 acts in
@@ -1047,9 +1024,9 @@ Theorem ex_system_live : forall maxr cmid0 smid0 acts,
   forall mid k, ex_sent_req mid k (snd r) ->
     ex_answered k (snd r) \/ In k (ex_lost_run cf y0 acts).
 Proof.
-  intros maxr cmid0 smid0 acts H1 H2 H3 H4. cbn zeta. intros Hrest mid k Hsent.
+  intros maxr cmid0 smid0 acts H2 H4. cbn zeta. intros Hrest mid k Hsent.
   pose proof (ex_full_run maxr acts _ _ 0 [] (ex_basic_init cmid0 smid0) I
-                          (ex_live_init cmid0 smid0 _ H1 H2 H3 H4)) as H. cbn zeta in H.
+                          (ex_live_init cmid0 smid0 _ H2 H4)) as H. cbn zeta in H.
   destruct (ex_sys_run (ex_cfg_guarded maxr) (ex_sys_init cmid0 smid0) acts) as [y t] eqn:Er.
   cbn [fst snd app] in *. destruct H as [m' [sc' [P [B L]]]].
   pose proof (ex_path_reqs_sent _ _ _ _ _ _ P Hsent) as Hreq.
@@ -1077,8 +1054,7 @@ Qed.
 
 (* exactly once: with nothing irrecoverably lost *)
 Theorem ex_system_exactly_once : forall maxr cmid0 smid0 acts,
-  0 <= cmid0 -> 0 <= smid0 ->
-  cmid0 + Z.of_nat (length acts) < 65536 -> smid0 + Z.of_nat (length acts) < 65536 ->
+  0 <= smid0 -> smid0 + Z.of_nat (length acts) < 65536 ->
   let cf := ex_cfg_guarded maxr in
   let y0 := ex_sys_init cmid0 smid0 in
   let r := ex_sys_run cf y0 acts in
@@ -1086,8 +1062,8 @@ Theorem ex_system_exactly_once : forall maxr cmid0 smid0 acts,
   forall mid k, ex_sent_req mid k (snd r) ->
     ex_answered k (snd r) /\ (ex_concl_count k (snd r) <= 1)%nat.
 Proof.
-  intros maxr cmid0 smid0 acts H1 H2 H3 H4. cbn zeta. intros Hr Hl mid k Hs. split.
-  - destruct (ex_system_live maxr cmid0 smid0 acts H1 H2 H3 H4 Hr mid k Hs) as [H | H]; [exact H |].
+  intros maxr cmid0 smid0 acts H2 H4. cbn zeta. intros Hr Hl mid k Hs. split.
+  - destruct (ex_system_live maxr cmid0 smid0 acts H2 H4 Hr mid k Hs) as [H | H]; [exact H |].
     rewrite Hl in H. destruct H.
   - apply (ex_system_safe maxr cmid0 smid0 acts).
 Qed.
